@@ -144,6 +144,10 @@ def run(ctx, rep):
     common.limit_guards(ctx, rep, RL9, 'C09.R9')
     RF = rep.rule('C09.R7', 'no starvation behind the fairness gate (the C02.R8 fold): whenever some node still has an accessible world it was not applied to, the box-type rules offer a target -- an unsaturated open branch would make the verdict depend on the order and multiplicity of premises')
     common.fair_gate(ctx, rep, RF, 'C09.R7')
+    R10 = rep.rule('C09.R10', 'which world is opened first is a tie between equal targets: the identity rule (folded over mock branches with several worlds; = C01.R9) '
+                              'offers the substitution at a world unless its result is on the branch at that world -- a result derived first at another world '
+                              'must not switch it off')
+    common.identity_rule(ctx, rep, R10, 'C09.R10')
     R3 = rep.rule('C09.R3', 'build() is the step() loop')
     b = m.func(TAB, 'Tableau.build')
     si = m.func(TAB, 'Tableau.stepiter')
